@@ -168,9 +168,9 @@ func keyOf(v AVal) string {
 	return v.Key()
 }
 
-func cstBool(b bool) Cst    { return Cst{V: constant.MakeBool(b), T: types.Typ[types.Bool]} }
-func cstInt(i int64) Cst    { return Cst{V: constant.MakeInt64(i), T: types.Typ[types.Int]} }
-func cstStr(s string) Cst   { return Cst{V: constant.MakeString(s), T: types.Typ[types.String]} }
+func cstBool(b bool) Cst  { return Cst{V: constant.MakeBool(b), T: types.Typ[types.Bool]} }
+func cstInt(i int64) Cst  { return Cst{V: constant.MakeInt64(i), T: types.Typ[types.Int]} }
+func cstStr(s string) Cst { return Cst{V: constant.MakeString(s), T: types.Typ[types.String]} }
 func isCstBool(v AVal) (bool, bool) {
 	if c, ok := v.(Cst); ok && c.V != nil && c.V.Kind() == constant.Bool {
 		return constant.BoolVal(c.V), true
